@@ -1008,6 +1008,9 @@ def commit_design(ctx):
         tlc_check(ctx, "Commit", "MC_Commit_torn.cfg", workers=8, timeout=3600)
     tlc_expect_violation(ctx, "Commit", "MC_Commit_nosync.cfg", "RecoveryOk", workers=4)
     tlc_expect_violation(ctx, "Commit", "MC_Commit_nonewer.cfg", "RecoveryOk", workers=4)
+    # a persistent savepoint over non-durable commits: lost without the pre-flush, with or without two-phase commit
+    tlc_expect_violation(ctx, "Commit", "MC_Commit_sp1pc.cfg", "RecoveryOk", workers=4)
+    tlc_expect_violation(ctx, "Commit", "MC_Commit_sp2pc.cfg", "RecoveryOk", workers=4)
 
 
 def run_commitio(ctx, runs, steps, profile="crash"):
@@ -1062,7 +1065,8 @@ def check_C01(ctx):
                      "call of commit() (slot write, sync, primary swap with the two-phase flag, sync), non-durable commits, header "
                      "rewrites, and recovery (select_primary_slot + checksum fallback); a crash keeps ANY subset of the unsynced "
                      "writes: every recovery finds a servable commit point not older than the last acknowledged one; the variants "
-                     "'first flush of 2PC does not reach the storage' and 'recovery ignores a newer secondary' are caught. code: every "
+                     "'first flush of 2PC does not reach the storage', 'recovery ignores a newer secondary' and 'a transaction that created "
+                     "a persistent savepoint commits without writing its pages out first (one-phase or two-phase)' are caught. code: every "
                      "backend call of further histories (header writes decoded) is validated as a behaviour of Commit.tla "
                      "(CommitTrace.tla).")
 
